@@ -29,6 +29,9 @@ type c04Case struct {
 	// ChanViews: the per-channel views of Alloc(C, L, P) are taken first, the samples appended afterwards:
 	// the views share the storage and see the appended values and the growing length
 	ChanViews bool `json:"chan_views,omitempty"`
+	// Grown: the buffer is Alloc(C, 1, 1) grown by an Append of L frames (it moved to new storage whose
+	// capacity the library reports); then N calls
+	Grown bool `json:"grown,omitempty"`
 }
 
 func c04Run(cs c04Case) []F {
@@ -113,8 +116,19 @@ func c04RunRaw(cs c04Case) (fs []F) {
 		fs = append(fs, core.Failf("AppendSample/"+kind, "%+v: %s", cs, fmt.Sprintf(format, a...)))
 	}
 	var root, b dyn.Buf
+	if cs.Grown {
+		b = dyn.Alloc(t, al(cs.C, 1, 1))
+		b.Append(dyn.Alloc(t, al(cs.C, cs.L, cs.L)))
+		cs.L, cs.P, cs.S = cs.L+1, b.Capacity(), 0
+		if b.Len() != cs.C*cs.L || b.Cap() != cs.C*cs.P || cs.P < cs.L {
+			fail("view", "the buffer grown by Append has Len %d Cap %d Capacity %d (want Len %d and whole frames)", b.Len(), b.Cap(), b.Capacity(), cs.C*cs.L)
+			return
+		}
+	}
 	st := newStore(cs.C * cs.P)
-	if cs.Direct {
+	if cs.Grown {
+		root = full(b)
+	} else if cs.Direct {
 		b = dyn.Alloc(t, al(cs.C, cs.L, cs.P))
 		root = full(b)
 	} else {
@@ -247,6 +261,13 @@ func init() {
 			for C := 71; C <= 1030; C++ {
 				for _, P := range []int{3, 7} {
 					cases = append(cases, c04Case{Type: "int8", C: C, P: P, S: 0, L: 0, Direct: true, N: C*P + 2, Sparse: true})
+				}
+			}
+			for _, t := range []int{dyn.Int8, dyn.Int16, dyn.Float64} { // buffers that were grown by Append first
+				for C := 1; C <= 3; C++ {
+					for L := 1; L <= 4; L++ {
+						cases = append(cases, c04Case{Type: tn(t), C: C, P: L + 1, L: L, Grown: true, N: C*24 + 5})
+					}
 				}
 			}
 			for _, t := range valTypes() { // special values, by bit pattern
